@@ -3,6 +3,7 @@ package props
 import (
 	"encoding/json"
 	"fmt"
+	"github.com/open-policy-agent/opa/rego"
 	"os"
 	"os/exec"
 	"path/filepath"
@@ -183,6 +184,31 @@ func decideC06(c c06Case) ev.Verdict {
 	first := validateFixed(c.Profile, c.Data)
 	if first.failed() {
 		return ev.Violation("c06-call-failed:"+classifyErr(first), "validation failed: %s\n%s", trunc(first.errString(), 400), c.Profile)
+	}
+	// abandoned input, then the subject again, a few times over: what the reader left unread may sit in any buffer.
+	// Through a compiled profile the two calls follow each other within microseconds (no compilation in between
+	// whose garbage would let the collector empty a pool first).
+	var q *rego.PreparedEvalQuery
+	if len(c.BeforeData) > 0 {
+		var cc call
+		if q, cc = compileProfile(c.Profile); cc.failed() {
+			q = nil
+		}
+	}
+	for rep := 0; rep < 4 && len(c.BeforeData) > 0; rep++ {
+		for _, d := range c.BeforeData {
+			_ = validateFixed(c.Profile, d)
+		}
+		r := validateFixed(c.Profile, c.Data)
+		if q != nil && !r.failed() && r.Report == first.Report {
+			for _, d := range c.BeforeData {
+				_ = validateCompiledFixed(q, d)
+			}
+			r = validateCompiledFixed(q, c.Data)
+		}
+		if r.failed() || r.Report != first.Report {
+			return ev.Violation("c06-repeated-call-differs", "the same inputs, validated straight after an input the reader abandoned, gave a different report (err=%v)\n%s\nprofile:\n%s", r.errString(), firstDiff(first.Report, r.Report), c.Profile)
+		}
 	}
 	for i := 1; i < R; i++ {
 		r := validateFixed(c.Profile, c.Data)
